@@ -33,6 +33,10 @@ CLAIMS = {
     text="Partial (hash order and seeds; thread schedules are outside). Every listed estimator (k-means with the default seed / a fixed seed, decision tree, Gaussian and multinomial naive Bayes, elastic net, OLS, min-max scaler, linear SVM) is built from its public default constructor and fitted 3-8 times inside one run on the same symbolic data - each fit creates fresh std HashMaps with fresh random SipHash keys - and all learned quantities must be the *same terms* (hash-consed, associativity-sensitive: a reduction whose order follows map iteration yields a different term) and all predictions equal, on every feasible path of the fits at the listed tiny shapes. Tree-specific harnesses additionally pin impurity bits and tied-leaf predictions.",
     technique="symbolic-scalar concolic execution with repeated fits per path; term identity as bit-identity oracle; z3 for path enumeration",
     design_ref="DESIGN.md §4 C20"),
+ "C14": dict(
+    text="Bounded model checking of the real decision-tree fit / predict code on symbolic integer features (n<=5 rows, 1-2 features, 2-3 classes, concrete label patterns and small integer weights enumerated per job; Gini and entropy; max_depth None/1/2, min_weight_split/leaf, min_impurity_decrease swept): every feasible path of the sorted sweep and recursion is enumerated (z3), and on each path the fitted tree is walked through the public accessors and recomputed from the training rows: depth limits, two children per split, reached and side weights, reported impurity decrease == recomputed decrease of the criterion and >= the threshold, every training row predicted as the label of its fit-time leaf, leaf label is a most frequent one, only training labels predicted, importances >= 0 summing to one. Rounding of split midpoints is outside the symbolic grid and is covered by concrete adjacent-float instances (adj=40 jobs).",
+    technique="symbolic-scalar concolic execution of the compiled generic code + SMT (z3) per path; native f64 replay",
+    design_ref="DESIGN.md §4 C14"),
 }
 NA = {
  "C10": "not applicable to solver-based checking within reach: a Gaussian-mixture fit is k-means initialisation + Cholesky factorisations + an EM loop with exp/ln in every step and a data-dependent iteration count; with exp/ln uninterpreted the fitted weights/covariances are unconstrained terms, so positivity, normalisation and the precision-covariance inverse relation cannot be decided, and z3's nonlinear real arithmetic does not get through one EM step (DESIGN.md C10). Only GmmParams::check_ref is covered, under C04.",
